@@ -1,4 +1,5 @@
 import LenaModel.Lemmas.C12
+import LenaModel.Model.C12Spec
 import LenaModel.Lemmas.C12Hist
 /-! # C12 — lemmas about the graph part of the model: `_parse_error_names`, `_get_err_indices`, the loop of
 `graph.scale`, the invariants of a constructed graph, `zip(*coords)`.  Core Lean only. -/
@@ -6,9 +7,6 @@ namespace Lena.C12
 open Lena Lena.NArr
 
 /-! ### `_parse_error_names` -/
-
-/-- the field name starts with `"error_"` -/
-def isErrField (f : Name) : Bool := errorPrefix.isPrefixOf f
 
 /-- once inside the error fields, `splitFields` accepts only error fields and numbers them consecutively -/
 theorem splitFields_inErr : ∀ (names : List Name) (ind lc : Nat) (errs : List (Name × Nat)) (lc' : Nat),
@@ -320,10 +318,6 @@ theorem zipRows_appendRow (m : Nat) : ∀ (cols : List (List Q)) (row : List Q),
 
 /-! ### vocabulary and helper lemmas of the graph theorems (`Props/C12.lean`) -/
 
-/-- `field` is an error field of the coordinate `coord`: it is named `error_<coord>` or `error_<coord>_<suffix>` -/
-def ErrorFieldOf (coord field : Name) : Prop :=
-  ∃ rest, field = "error_".toList ++ rest ∧ (rest = coord ∨ ∃ tail, rest = coord ++ '_' :: tail)
-
 theorem errMatches_iff (f c : Name) (hf : isErrField f = true) :
     errMatches (f.drop 6) c = true ↔ ErrorFieldOf c f := by
   obtain ⟨rest, rfl⟩ := (isErrField_iff f).1 hf
@@ -341,10 +335,6 @@ theorem errMatches_iff (f c : Name) (hf : isErrField f = true) :
     rcases h2 with h | ⟨t, ht⟩
     · exact Or.inl h
     · exact Or.inr ⟨t, by simp [ht]⟩
-
-/-- the point that `hist_to_graph` makes of a cell -/
-def pointOf (mode : CoordMode) (makeValue : Option (Q → List Q)) (edges : List (Q × Q)) (v : Q) : List Q :=
-  getCoord mode edges ++ graphValue makeValue v
 
 theorem graphLoop_spec (mode : CoordMode) (mv : Option (Q → List Q)) (w : Nat) :
     ∀ (cellsL : List (Q × List (Q × Q))) (cols : List (List Q)) (m : Nat), cols ≠ [] → cols.length = w →
